@@ -105,6 +105,14 @@ def sib_writes(ctx, prog):
             ctx.fail(R, "public:" + w, "public Var::%s does not delegate to the internal var" % w, fn=P)
 
 
+def _arg_fields(F, t, du):
+    from .cfg import origins
+    out = []
+    for o in origins(F, t.arg_place(0), du):
+        out += [f for f in (o.fields or [])]
+    return out
+
+
 def guard_value(ctx, prog, R="C08.GUARD-value"):
     ctx.rule(R, "Var.value is borrowed mutably only in set/update/modify/replace_with (non-Stabilising arms, "
                 "checked by SIB-writes) and in set_var_while_not_stabilising <- {set, set_var_stabilise_end <- "
@@ -186,6 +194,35 @@ def guard_value(ctx, prog, R="C08.GUARD-value"):
             ctx.ok(R, "set_at")
         else:
             ctx.fail(R, "set_at", "set_at is not stamped with the current stabilisation number", fn=D)
+        # decision table: the stamp depends on `set_at < now` only; necessity gates the heap insertion, not the stamp
+        # (a write to a var whose watch node is currently unnecessary must still make the node stale)
+        syms = [dtab.Sym("older", lambda e: e[0] == "call" and e[1].endswith("::lt") and mentions(
+                    e, lambda x: x[0] == "field" and x[2][-1] == "set_at"), {0: "no", 1: "yes"}, kind="bool"),
+                dtab.Sym("necessary", lambda e: e[0] == "call" and e[1].endswith("is_necessary"), {0: "no", 1: "yes"}, kind="bool"),
+                dtab.Sym("queued", lambda e: e[0] == "call" and e[1].endswith("is_in_recompute_heap"), {0: "no", 1: "yes"}, kind="bool")]
+        acts = [dtab.Action("stamp", lambda t: q.callee_is(t, "core::cell::Cell::set") and t.arg_place(0) is not None and
+                            any(f.endswith("Var.set_at") for f in _arg_fields(D, t, du))),
+                dtab.Action("insert", lambda t: q.callee_is(t, "RecomputeHeap::insert"))]
+        tb = dtab.table(D, syms, acts, path_sensitive=True)
+        for (older, nec, queued), res in sorted(tb.items()):
+            got = set()
+            for x in dtab.summarize(res):
+                got |= {a.strip() for a in x.split(";") if a.strip() in ("stamp", "insert")} if "diverge" not in x else set()
+            want = set()
+            if older == "yes":
+                want.add("stamp")
+                if nec == "yes" and queued == "no":
+                    want.add("insert")
+            ctx.site(R, D, "(older=%s,necessary=%s,queued=%s) -> %s" % (older, nec, queued, sorted(got)))
+            inst = "did-set:%s/%s/%s" % (older, nec, queued)
+            if got == want:
+                ctx.ok(R, inst)
+            else:
+                ctx.fail(R, inst, "did_set_var_while_not_stabilising with (set_at<now=%s, watch necessary=%s, queued=%s) "
+                         "does %s, specified %s: a write to a var nobody currently observes must still stamp set_at, "
+                         "otherwise the write is lost when the var is observed again"
+                         % (older, nec, queued, sorted(got), sorted(want)), fn=D)
+        ctx.floor(R, len(tb), 8)
 
 
 def dom_end(ctx, prog):
@@ -279,4 +316,13 @@ for _f, _id in ((sib_writes, "C08.SIB-writes"), (guard_value, "C08.GUARD-value")
                 (dtab_stable, "C08.DTAB-stable")):
     _f.rule_id = _id
 
-RULES = [sib_writes, guard_value, dom_end, dtab_stable]
+def dom_status_first(ctx, prog):
+    """Writes issued from a callback that runs while observers are linked / unlinked must be deferred too: the
+    status is Stabilising before anything user-reaching runs (shared with C07)."""
+    from .c07 import dom_status_first as f
+    f(ctx, prog, "C08.DOM-status-first")
+
+
+dom_status_first.rule_id = "C08.DOM-status-first"
+
+RULES = [sib_writes, guard_value, dom_end, dtab_stable, dom_status_first]
